@@ -708,6 +708,32 @@ func (u *Unit) helperResultShape(e ast.Expr, idx, depth int) string {
 	if _, isLit := ast.Unparen(ret.Results[idx]).(*ast.FuncLit); isLit {
 		return "" // an iterator / closure factory keeps its name
 	}
+	// a getter (`return r.f` / `return r.a.b`): the field of *that* receiver or argument, not just the field
+	if sel, ok := ast.Unparen(ret.Results[idx]).(*ast.SelectorExpr); ok {
+		path := ""
+		var root ast.Expr = sel
+		for {
+			se, ok := ast.Unparen(root).(*ast.SelectorExpr)
+			if !ok {
+				break
+			}
+			if fv, isField := hu.Info.Uses[se.Sel].(*types.Var); !isField || !fv.IsField() {
+				path = ""
+				break
+			}
+			path = "." + se.Sel.Name + path
+			root = se.X
+		}
+		if id, ok := ast.Unparen(root).(*ast.Ident); ok && path != "" {
+			if v, ok := hu.Info.Uses[id].(*types.Var); ok {
+				if ps := hu.paramShape(v); ps != "" {
+					if base := newParamSubst(u, c).apply(ps); base != ps {
+						return base + path
+					}
+				}
+			}
+		}
+	}
 	// the helper is transparent: its return expression is rendered with the depth budget of the call site
 	u.eng.helperNest++
 	defer func() { u.eng.helperNest-- }()
